@@ -183,6 +183,8 @@ def fits(eng, v, n, signed, what):
 
 def struct_pack(eng, e, args):
     fmt = args[0]
+    if fmt in ('B', 'b'):
+        fmt = '>' + fmt                 # one byte: no byte order, no alignment
     if not isinstance(fmt, str) or len(fmt) != 2 or fmt[0] != '>' or fmt[1] not in CODES:
         raise Unsupported(f'struct.pack({fmt!r})')
     n, signed = CODES[fmt[1]]
@@ -191,6 +193,8 @@ def struct_pack(eng, e, args):
 
 def struct_unpack(eng, e, args):
     fmt, data = args
+    if fmt in ('B', 'b'):
+        fmt = '>' + fmt                 # one byte: no byte order, no alignment
     if isinstance(data, bytes):
         data = Packed(len(data), z3.IntVal(int.from_bytes(data, 'big')))
     if not isinstance(fmt, str) or len(fmt) != 2 or fmt[0] != '>' or fmt[1] not in CODES or not isinstance(data, Packed):
